@@ -29,10 +29,11 @@ def run_one(sid):
         p = subprocess.run(['git', 'apply', os.path.join(d, 'patch.diff')], cwd=clone, capture_output=True, text=True)
         if p.returncode != 0:
             return sid, prop, {'exit': None, 'caught': False, 'lines': ['stale-patch: ' + p.stderr.strip()[:200]]}
-        env = dict(os.environ, GEOSTRUCTURES_REPO=clone)
+        env = dict(os.environ, GEOSTRUCTURES_REPO=clone, VERIF_NO_ESCALATE='1')   # quick-size streams alone: a lower bound
         c = subprocess.run([os.path.join(VERIF, 'check'), prop, 'quick'], cwd=VERIF, env=env, capture_output=True, text=True,
                            timeout=3000)
         lines = [ln for ln in (c.stdout + c.stderr).split('\n') if ln.startswith(('VIOLATION', '[C', 'INFRA'))]
+        lines.sort(key=lambda ln: 0 if ln.startswith('VIOLATION') else 1)
         return sid, prop, {'exit': c.returncode, 'caught': c.returncode == 1 and any(ln.startswith('VIOLATION') for ln in lines),
                            'lines': lines[:4]}
     finally:
